@@ -11,6 +11,7 @@ CHECKS = {f"C{i:02d}": f"harness.c{i:02d}" for i in range(1, 21)}
 CHECKS["X01"] = "harness.x01"      # growth beyond the listed properties (no MANIFEST entry)
 CHECKS["X02"] = "harness.x02"
 CHECKS["X03"] = "harness.x03"
+CHECKS["X04"] = "harness.x04"
 
 
 def main(argv=None) -> int:
